@@ -6,6 +6,10 @@ BASE = "cd /repo && /venv/bin/python -m pytest -ra -q -p no:cacheprovider --time
 
 # id -> (engine, level, technique, level text, level note, design ref)
 CHECKS = {
+ "C13": ("LX", "exploration",
+         "bounded-exhaustive enumeration over generated programs: the complete product of per-joint URDF variants for 1 and 2 moving joints, scheduled families for 3..8 joints with every fixed-joint placement pattern, loaded by the real loader and compared with an independent XML->kinematics interpreter",
+         "The 5 bundled files plus 73 k (quick) / 195 k (thorough) generated single-chain URDFs: full product {origin full/no rpy/no xyz/omitted} x {axis x,z,-z,generic,omitted} x {revolute, continuous} x fixed-joint placements x world link x inertial data for n <= 2, rotating schedules for n = 3..8, half-turn spellings, continuous joints with effort/velocity-only limits; dof count, joint order and names, limits as written and FK at 5 joint vectors to 1e-6.",
+         "Strictly serial trees, revolute/continuous/fixed joints only (the property's quantifier); origin and limit values rotate through fixed palettes rather than entering the product. KF1 matched only when the deviation shows the logarithm's signature.", "DESIGN 4/C13"),
  "C14": ("HX", "exploration",
          "exhaustive enumeration of length-3 histories (build operands -> call -> one in-place mutation of the result) executed from scratch over a 306-entry table of operators/accessors/helpers x operand palettes x every mutation site, with byte/identity/extent fingerprints",
          "Every public operator, accessor, copy constructor and in-scope helper of tm/Screw/Wrench/fsr, all 47 shared Modern Robotics functions plus extras, the Arm/SP constructors and loaders, and all default-argument objects (treated as hidden operands) are exercised with 2-3 operand palettes each; operands must be byte-identical afterwards, results must not share memory with operands, and no mutation of a result may reach an operand or a default.",
